@@ -208,6 +208,14 @@ def tlc(moddir, module, cfg, workers=16, timeout=900, simulate=None, depth=None,
         files=None, jvm=(), coverage=False, seed_arg=None, deque=False):
     """Run TLC.  Returns dict(out, rc, generated, distinct, depth, wall, coverage)."""
     d = _copy_spec(os.path.join(SPEC, moddir) if not os.path.isabs(moddir) else moddir)
+    if files:
+        # generated modules differ per call and calls may run concurrently (thread pools in the
+        # recipes): every such run gets a private copy of the spec directory, so that no TLC
+        # process ever reads a module another call is rewriting
+        priv = tempfile.mkdtemp(prefix="spec-priv-", dir=scratch())
+        os.rmdir(priv)
+        shutil.copytree(d, priv, ignore=shutil.ignore_patterns("states", "*.out", "md-*"))
+        d = priv
     if cfg_text is not None:
         with open(os.path.join(d, cfg), "w") as f:
             f.write(cfg_text)
